@@ -196,6 +196,42 @@ def _run_main(res, ctx):
                     res.count("excerpt-n%d" % n)
                 if probs:
                     res.violation("location / excerpt invariant broken", {"program": src, "finding": [r.test_id, r.lineno, lr, r.col_offset], "problems": probs})
+        # ---- (b2) the same excerpt invariants for source piped on STDIN (the excerpt is then cut from the buffered stream, not from linecache), for findings at
+        #      every small distance from one another (seeded change C10-m10 kept the stream position between excerpts and rewound on the wrong test: a
+        #      finding one line past the previous excerpt showed the neighbouring lines under its numbers)
+        import json as _json
+        gap_programs = []
+        for gap in range(0, 7):
+            gap_programs.append("import pickle\n" + "".join("v%d = %d\n" % (i, i) for i in range(gap)) + "obj = pickle.loads(blob)\nprint(obj)\nprint('done')\n")
+            gap_programs.append("import subprocess\nimport pickle\n" + "\n" * gap + "subprocess.Popen(cmd,\n    shell=True)\n" + "\n" * (gap // 2) + "assert obj\nx = 1\ny = 2\n")
+        for src in gap_programs + programs[:6]:
+            flines = src.split("\n")
+            nlines = len(flines) - 1 if src.endswith("\n") else len(flines)
+            for n in (1, 2, 3, 4, 5):
+                r = C.run_cli(["-f", "json", "-q", "-n", str(n), "-"], stdin_bytes=src.encode())
+                res.case(("stdin-excerpt", src, n), True)
+                res.count("stdin-excerpt-n%d" % n)
+                try:
+                    results = _json.loads(r["out"])["results"]
+                except Exception:
+                    res.violation("no JSON report for a program piped on stdin", {"program": src, "n": n, "exit": r["exit"], "exc": r["exc"]})
+                    continue
+                for x in results:
+                    probs = []
+                    nums = []
+                    for l in [l for l in x["code"].split("\n") if l != ""]:
+                        num, _, text = l.partition(" ")
+                        if not num.isdigit() or int(num) > nlines or flines[int(num) - 1] != text:
+                            probs.append(f"excerpt line not verbatim/numbered (-n {n}): {l!r}")
+                            break
+                        nums.append(int(num))
+                    if nums and nums != list(range(nums[0], nums[0] + len(nums))):
+                        probs.append(f"excerpt lines not consecutive (-n {n})")
+                    if not probs and x["line_number"] not in nums:
+                        probs.append(f"excerpt does not include the flagged line (-n {n})")
+                    if probs:
+                        res.violation("location / excerpt invariant broken for source piped on stdin",
+                                      {"program": src, "channel": "stdin", "finding": [x["test_id"], x["line_number"], x["line_range"]], "excerpt": x["code"], "problems": probs})
         # ---- (c) insertions
         texts = [("blank", ""), ("whitespace", "    "), ("comment", "# an ordinary comment"), ("indented-comment", "        # note")]
         edits = []
